@@ -91,7 +91,8 @@ func (this *RGBLuminanceSource) IsCropSupported() bool {
 }
 
 func (this *RGBLuminanceSource) Crop(left, top, width, height int) (LuminanceSource, error) {
-	if left+width > this.dataWidth || top+height > this.dataHeight {
+	if left < 0 || top < 0 || width < 0 || height < 0 ||
+		this.left+left+width > this.dataWidth || this.top+top+height > this.dataHeight {
 		return nil, errors.New("IllegalArgumentException: Crop rectangle does not fit within image data")
 	}
 	return &RGBLuminanceSource{
